@@ -12,6 +12,7 @@ pub mod c12;
 pub mod c13;
 pub mod c14;
 pub mod c15;
+pub mod c16;
 pub mod common;
 
 pub fn run(ctx: &Ctx) -> Option<CheckOutput> {
@@ -28,6 +29,7 @@ pub fn run(ctx: &Ctx) -> Option<CheckOutput> {
 		"C13" => c13::run(ctx),
 		"C14" => c14::run(ctx),
 		"C15" => c15::run(ctx),
+		"C16" => c16::run(ctx),
 		_ => return None,
 	})
 }
@@ -58,6 +60,7 @@ pub fn replay_file(path: &str) -> i32 {
 			"C13" => c13::replay(case),
 			"C14" => c14::replay(case),
 			"C15" => c15::replay(case),
+			"C16" => c16::replay(case),
 			_ => Some(format!("no replayer for {prop}")),
 		}
 	};
